@@ -147,6 +147,8 @@ var c09Deadline = []c09prog{
 	{"sleep-long", "", `sleep(100000.0)`, 1, false},
 	{"print-loop", "", `for i = 1000000 { print(i) }`, 1, true},
 	{"catch-loop", "", `for true { catch(error("e")) }`, 1, true},
+	{"recursion-catch-per-frame", `func cf(n) { r = catch(cf(n + 1)); r.err }`, `cf(0)`, 0, true},
+	{"catch-swallows-in-loop", `func lp(n) { for i = n { catch(lp2(i)) }; 1 }` + "\n" + `func lp2(n) { t := 0; for j = 50 { t = t + j }; t }`, `for true { lp(20) }`, 3, true},
 	{"finite-small", "", `t = 0; for i = 30 { t = t + i * i }; println(t)`, 1, false},
 	{"finite-recursive", `func fib(n) { if n < 2 { return n }; fib(n - 1) + fib(n - 2) }`, `fib(11)`, 14, false},
 	{"range-alloc-loop", "", `for true { 0:50000 }`, 1, true},
